@@ -378,6 +378,8 @@ class MultiIndex(LExpr):
         else:
             stride = [np.prod(sizes[i:]) for i in range(dim)] + [LiteralInt(1)]
             self.global_index = Sum(n * sym for n, sym in zip(stride[1:], symbols))
+        # A multi-index is formatted as its global index, so it binds like that expression
+        self.precedence = self.global_index.precedence
 
     @property
     def dim(self):
